@@ -231,6 +231,44 @@ def rule_box(ctx: Ctx) -> List[Ob]:
                 okx = x0 is not None and src(x0) == "self.x"
                 obs.append(ob("BOX", "differencer is centred on the wrapper's cached point", g, c, okx,
                               f"x0 <- {short(x0)}", construct=f"approx_derivative(x0={short(x0)})"))
+    # the package's own projection helper is trusted by name at its call sites: it must be one
+    cb = ctx.repo.funcs.get("base.clip2bounds")
+    if cb is not None and len(cb.params) >= 3:
+        xp, lo_, hi_ = cb.params[0], cb.params[1], cb.params[2]
+        for r_ in walk_no_nested(cb.node):
+            if isinstance(r_, ast.Return) and r_.value is not None:
+                e_ = r_.value
+                while isinstance(e_, ast.Attribute) and e_.attr == "T":
+                    e_ = e_.value
+                okp, why_ = False, f"returns {short(r_.value, 60)}"
+                if isinstance(e_, ast.Call) and dotted(e_.func) in ("np.clip", "numpy.clip"):
+                    a_ = list(e_.args)
+                    lo = a_[1] if len(a_) > 1 else kw(e_, "a_min") or kw(e_, "min")
+                    hi = a_[2] if len(a_) > 2 else kw(e_, "a_max") or kw(e_, "max")
+                    # what the clipped point is computed from: names, followed through every reaching definition of a local
+                    rd_, cfg_ = ctx.rd(cb), ctx.cfg(cb)
+                    pt, work_, seen_ = set(), [(cfg_.node_of(r_), x.id) for x in ast.walk(a_[0]) if isinstance(x, ast.Name)] if a_ else [], set()
+                    while work_:
+                        at_, nm_ = work_.pop()
+                        if (id(at_), nm_) in seen_:
+                            continue
+                        seen_.add((id(at_), nm_))
+                        ds_ = [(d_, v_) for d_, v_, how_ in rd_.value_exprs(at_, nm_) if d_ is not cfg_.entry]
+                        if not ds_ or nm_ in cb.params and any(d_ is cfg_.entry for d_, _, _ in rd_.value_exprs(at_, nm_)):
+                            pt.add(nm_)
+                        for d_, v_ in ds_:
+                            if v_ is None:
+                                pt.add("?")
+                            else:
+                                work_ += [(d_, x.id) for x in ast.walk(v_) if isinstance(x, ast.Name)]
+                    okp = lo is not None and hi is not None and src(lo) == lo_ and src(hi) == hi_ and pt <= {xp, "np"} and xp in pt \
+                        and kw(e_, "out") is None
+                    if not okp:
+                        why_ += f": not np.clip(<{xp}>, {lo_}, {hi_})"
+                elif isinstance(e_, ast.Call) and isinstance(e_.func, ast.Attribute) and e_.func.attr == "clip" and len(e_.args) == 2:
+                    okp = src(e_.args[0]) == lo_ and src(e_.args[1]) == hi_
+                obs.append(ob("BOX", "clip2bounds is the projection onto its (lb, ub) arguments", cb, r_, okp, why_,
+                              construct=f"clip2bounds: return {short(r_.value, 50)}"))
     return obs
 
 
